@@ -21,7 +21,7 @@ pub const SPEC: Spec = Spec {
     quick_cases: 30_000,
     thorough_cases: 1_000_000,
     alloc_limit: 512 << 20,
-    fuzz: Some(FuzzSpec { target: "c03_differential", prefix: &[255], max_len: 4096, quick_runs: 20_000, thorough_runs: 600_000, jobs: 16 }),
+    fuzz: Some(FuzzSpec { target: "c03_differential", prefix: &[255], max_len: 4096, quick_runs: 20_000, thorough_runs: 250_000, jobs: 16 }),
     ..Spec::base("C03", "Validity, Merkle roots and cost agree with libsimplicity", case)
 };
 
